@@ -28,23 +28,644 @@ pub struct VbaProject { _opaque: u8 }
 #[verifier::external_trait_specification] pub trait ExSeek { type ExternalTraitSpecificationFor: std::io::Seek; }
 
 //@@ item src/xlsx/mod.rs enum XlsxError
-//@@ item src/lib.rs enum CellErrorType
+//@@ item src/lib.rs enum CellErrorType keep_attrs
 //@@ item src/lib.rs struct Dimensions keep_attrs
 //@@ item src/lib.rs enum SheetType
 //@@ item src/lib.rs enum SheetVisible
 //@@ item src/lib.rs struct Sheet
 //@@ item src/lib.rs struct Metadata
 //@@ item src/lib.rs enum HeaderRow keep_attrs
-//@@ item src/datatype.rs enum ExcelDateTimeType
-//@@ item src/datatype.rs struct ExcelDateTime
-//@@ item src/datatype.rs enum Data
-//@@ item src/datatype.rs enum DataRef
+//@@ item src/datatype.rs enum ExcelDateTimeType keep_attrs
+//@@ item src/datatype.rs struct ExcelDateTime keep_attrs
+//@@ item src/datatype.rs enum Data keep_attrs
+//@@ item src/datatype.rs enum DataRef keep_attrs
 //@@ item src/formats.rs enum CellFormat
 //@@ item src/xlsx/mod.rs type Tables
 //@@ item src/xlsx/mod.rs struct Xlsx cfg_off=picture
 //@@ item src/xlsx/mod.rs struct XlsxOptions
 
+// TRUSTED: `#[derive(Clone)]` / `#[derive(Default)]` + `#[default] Empty` on Data and DataRef: the clone equals the original, the default
+// value is `Empty` (Verus adds no specification to these derives by itself: "autoderive Clone impl does not take the form Verus expects")
+pub assume_specification<'a>[ <DataRef<'a> as Default>::default ]() -> (r: DataRef<'a>) ensures r == DataRef::<'a>::Empty;
+pub assume_specification[ <Data as Default>::default ]() -> (r: Data) ensures r == Data::Empty;
+impl CellType for Data {}
+impl<'a> CellType for DataRef<'a> {}
 //@@ include lazyrange/range_api.rs
+
+// TRUSTED: `#[derive(Clone)]` on Data / DataRef yields a value equal to the original (Verus verifies the derived impls but attaches no
+// specification to them), and `default()` does return (Verus only gives call_ensures ==> ensures, never the existence of a result);
+// together with the Default specification above this is `lawful` / `dflt` of unit range for the two cell types.
+#[verifier::external_body]
+pub proof fn axiom_cell_type_derives<'a>()
+    ensures
+        forall|a: DataRef<'a>, b: DataRef<'a>| call_ensures(<DataRef<'a> as Clone>::clone, (&a,), b) ==> a == b,
+        forall|a: Data, b: Data| call_ensures(<Data as Clone>::clone, (&a,), b) ==> a == b,
+        call_ensures(<DataRef<'a> as Default>::default, (), DataRef::<'a>::Empty),
+        call_ensures(<Data as Default>::default, (), Data::Empty),
+{}
+
+pub proof fn lemma_lawful_cells<'a>()
+    ensures
+        lawful::<DataRef<'a>>(), dflt::<DataRef<'a>>() == DataRef::<'a>::Empty,
+        lawful::<Data>(), dflt::<Data>() == Data::Empty,
+{
+    axiom_cell_type_derives();
+}
+
+
+// =====================================================================================================================
+// Specification (mathematics, from properties C08 / C01 / C03): which cells of the stream make the range
+// =====================================================================================================================
+/// rows never decrease along the stream (the order in which the sheet part stores its rows) -- "row-sorted cells"
+pub closed spec fn rows_mono<T: CellType>(cs: Seq<Cell<T>>) -> bool {
+    forall|i: int, j: int| 0 <= i <= j < cs.len() ==> (#[trigger] cs[i]).pos.0 <= (#[trigger] cs[j]).pos.0
+}
+/// a cell counts for the header-row-n read: it is non-empty (Empty is the default value of the cell type) and not above row n
+pub closed spec fn wanted<T: CellType>(c: Cell<T>, n: int) -> bool { c.val != dflt::<T>() && c.pos.0 >= n }
+/// filter(wanted(_, n), cs), order preserved
+pub closed spec fn keep<T: CellType>(cs: Seq<Cell<T>>, n: int) -> Seq<Cell<T>>
+    decreases cs.len()
+{
+    if cs.len() == 0 { Seq::empty() } else {
+        let k = keep(cs.drop_last(), n);
+        if wanted(cs.last(), n) { k.push(cs.last()) } else { k }
+    }
+}
+/// pad_n: an Empty cell at (n, column of the first kept cell) is put in front iff the first kept cell is not in row n
+pub closed spec fn pad<T: CellType>(ks: Seq<Cell<T>>, n: u32) -> Seq<Cell<T>> {
+    if ks.len() > 0 && ks[0].pos.0 != n { seq![Cell { pos: (n, ks[0].pos.1), val: dflt::<T>() }] + ks } else { ks }
+}
+/// the cells handed to from_sparse, per option value
+pub closed spec fn lazy_cells<T: CellType>(hr: HeaderRow, cs: Seq<Cell<T>>) -> Seq<Cell<T>> {
+    match hr {
+        HeaderRow::FirstNonEmptyRow => keep(cs, 0),
+        HeaderRow::Row(n) => pad(keep(cs, n as int), n),
+    }
+}
+/// value of the last cell of cs at (r, c), if any
+pub closed spec fn last_val<T: CellType>(cs: Seq<Cell<T>>, r: int, c: int) -> Option<T>
+    decreases cs.len()
+{
+    if cs.len() == 0 { None } else if cell_at(cs.last(), r, c) { Some(cs.last().val) } else { last_val(cs.drop_last(), r, c) }
+}
+pub open spec fn or_dflt<T: CellType>(o: Option<T>) -> T { match o { Some(v) => v, None => dflt::<T>() } }
+
+proof fn lemma_lastw_last_val<T: CellType>(cs: Seq<Cell<T>>, k: int, r: int, c: int)
+    requires 0 <= k <= cs.len(),
+    ensures
+        lastw(cs, k, r, c) >= 0 ==> last_val(cs.take(k), r, c) == Some(cs[lastw(cs, k, r, c)].val),
+        lastw(cs, k, r, c) < 0 ==> last_val(cs.take(k), r, c) is None,
+    decreases k,
+{
+    lemma_lastw(cs, k, r, c);
+    if k > 0 {
+        lemma_lastw_last_val(cs, k - 1, r, c);
+        assert(cs.take(k).drop_last() =~= cs.take(k - 1));
+        assert(cs.take(k).last() == cs[k - 1]);
+    }
+}
+proof fn lemma_last_val_some<T: CellType>(cs: Seq<Cell<T>>, r: int, c: int)
+    ensures
+        last_val(cs, r, c) is Some <==> exists|k: int| 0 <= k < cs.len() && cell_at(#[trigger] cs[k], r, c),
+    decreases cs.len(),
+{
+    if cs.len() > 0 {
+        let d = cs.drop_last();
+        lemma_last_val_some(d, r, c);
+        if cell_at(cs.last(), r, c) {
+            assert(cell_at(cs[cs.len() - 1], r, c));
+        } else {
+            if last_val(d, r, c) is Some {
+                let k = choose|k: int| 0 <= k < d.len() && cell_at(#[trigger] d[k], r, c);
+                assert(cell_at(cs[k], r, c));
+            }
+            if exists|k: int| 0 <= k < cs.len() && cell_at(#[trigger] cs[k], r, c) {
+                let k = choose|k: int| 0 <= k < cs.len() && cell_at(#[trigger] cs[k], r, c);
+                assert(k < cs.len() - 1);
+                assert(cell_at(d[k], r, c));
+            }
+        }
+    }
+}
+proof fn lemma_last_val_prepend<T: CellType>(a: Cell<T>, s: Seq<Cell<T>>, r: int, c: int)
+    ensures
+        last_val(seq![a] + s, r, c) == (match last_val(s, r, c) { Some(v) => Some(v), None => if cell_at(a, r, c) { Some(a.val) } else { None } }),
+    decreases s.len(),
+{
+    let t = seq![a] + s;
+    if s.len() == 0 {
+        assert(t =~= seq![a]);
+        assert(t.last() == a);
+        assert(t.drop_last() =~= Seq::<Cell<T>>::empty());
+        assert(last_val(t.drop_last(), r, c) is None);
+    } else {
+        assert(t.last() == s.last());
+        assert(t.drop_last() =~= seq![a] + s.drop_last());
+        lemma_last_val_prepend(a, s.drop_last(), r, c);
+    }
+}
+/// the value a from_sparse range shows at an absolute position, absent positions counting as Empty
+proof fn lemma_sparse_val_at<T: CellType>(rg: Range<T>, cs: Seq<Cell<T>>, r: int, c: int)
+    requires sparse_of(rg, cs), lawful::<T>(),
+    ensures
+        rg.val_at(r, c) == or_dflt(last_val(cs, r, c)),
+        last_val(cs, r, c) is Some ==> rg.has(r, c),
+{
+    lemma_lastw_last_val(cs, cs.len() as int, r, c);
+    assert(cs.take(cs.len() as int) =~= cs);
+    lemma_lastw(cs, cs.len() as int, r, c);
+    let lw = lastw(cs, cs.len() as int, r, c);
+    if lw >= 0 {
+        assert(cell_at(cs[lw], r, c));
+        assert(rg.has(cs[lw].p().0 as int, cs[lw].p().1 as int));
+    }
+}
+
+proof fn lemma_push_contains<A>(s: Seq<A>, a: A, x: A)
+    ensures s.push(a).contains(x) <==> (s.contains(x) || x == a),
+{
+    let t = s.push(a);
+    if t.contains(x) {
+        let i = choose|i: int| 0 <= i < t.len() && t[i] == x;
+        if i < s.len() { assert(s[i] == x); }
+    }
+    if s.contains(x) {
+        let i = choose|i: int| 0 <= i < s.len() && s[i] == x;
+        assert(t[i] == x);
+    }
+    if x == a { assert(t[s.len() as int] == x); }
+}
+/// keep is the order-preserving filter: membership and row order
+proof fn lemma_keep_props<T: CellType>(cs: Seq<Cell<T>>, n: int)
+    ensures
+        forall|x: Cell<T>| #[trigger] keep(cs, n).contains(x) <==> (cs.contains(x) && wanted(x, n)),
+        rows_mono(cs) ==> rows_mono(keep(cs, n)),
+        keep(cs, n).len() <= cs.len(),
+    decreases cs.len(),
+{
+    if cs.len() == 0 {
+        assert forall|x: Cell<T>| #[trigger] keep(cs, n).contains(x) <==> (cs.contains(x) && wanted(x, n)) by {
+            if keep(cs, n).contains(x) { let i = choose|i: int| 0 <= i < keep(cs, n).len() && keep(cs, n)[i] == x; }
+            if cs.contains(x) { let i = choose|i: int| 0 <= i < cs.len() && cs[i] == x; }
+        }
+    } else {
+        let d = cs.drop_last();
+        let l = cs.last();
+        lemma_keep_props(d, n);
+        assert(cs =~= d.push(l));
+        assert forall|x: Cell<T>| #[trigger] keep(cs, n).contains(x) <==> (cs.contains(x) && wanted(x, n)) by {
+            lemma_push_contains(d, l, x);
+            lemma_push_contains(keep(d, n), l, x);
+        }
+        if rows_mono(cs) {
+            assert(rows_mono(d)) by {
+                assert forall|i: int, j: int| 0 <= i <= j < d.len() implies (#[trigger] d[i]).pos.0 <= (#[trigger] d[j]).pos.0 by {
+                    assert(d[i] == cs[i] && d[j] == cs[j]);
+                }
+            }
+            let kd = keep(d, n);
+            let k = keep(cs, n);
+            assert forall|i: int, j: int| 0 <= i <= j < k.len() implies (#[trigger] k[i]).pos.0 <= (#[trigger] k[j]).pos.0 by {
+                if j < kd.len() {
+                    assert(k[i] == kd[i] && k[j] == kd[j]);
+                } else if i < kd.len() {
+                    // k == kd.push(l), j is the new last element; k[i] is some cs[m], m < last
+                    assert(k[j] == l);
+                    assert(kd.contains(kd[i]));
+                    assert(d.contains(kd[i]));
+                    let m = choose|m: int| 0 <= m < d.len() && d[m] == kd[i];
+                    assert(cs[m] == kd[i]);
+                    assert(cs[m].pos.0 <= cs[cs.len() - 1].pos.0);
+                }
+            }
+        }
+    }
+}
+/// cells at a position not above row n are the same in both filters, in the same order
+proof fn lemma_keep_last_val<T: CellType>(cs: Seq<Cell<T>>, n: int, r: int, c: int)
+    requires 0 <= n <= r,
+    ensures last_val(keep(cs, n), r, c) == last_val(keep(cs, 0), r, c),
+    decreases cs.len(),
+{
+    if cs.len() > 0 {
+        let d = cs.drop_last();
+        let l = cs.last();
+        lemma_keep_last_val(d, n, r, c);
+        if wanted(l, n) {
+            assert(wanted(l, 0));
+            assert(keep(d, n).push(l).drop_last() =~= keep(d, n));
+            assert(keep(d, 0).push(l).drop_last() =~= keep(d, 0));
+        } else if wanted(l, 0) {
+            assert(!cell_at(l, r, c));
+            assert(keep(d, 0).push(l).drop_last() =~= keep(d, 0));
+        }
+    }
+}
+
+proof fn lemma_take_step<T: CellType>(s: Seq<Cell<T>>, k: int, n: int)
+    requires 0 <= k < s.len(),
+    ensures keep(s.take(k + 1), n) == (if wanted(s[k], n) { keep(s.take(k), n).push(s[k]) } else { keep(s.take(k), n) }),
+{
+    assert(s.take(k + 1).drop_last() =~= s.take(k));
+    assert(s.take(k + 1).last() == s[k]);
+}
+
+// ---------------------------------------------------------------------------------------------------------------------
+// C08, the heart: what the Row(n) read shows, relative to the default read of the same sheet
+// ---------------------------------------------------------------------------------------------------------------------
+//@@ props C08
+/// For a row-sorted cell stream `cs`: rn = from_sparse(pad_n(filter(nonempty /\ row >= n))) and r0 = from_sparse(filter(nonempty)).
+pub proof fn header_row_lemma<T: CellType>(cs: Seq<Cell<T>>, n: u32, r0: Range<T>, rn: Range<T>)
+    requires
+        lawful::<T>(),
+        rows_mono(cs),
+        sparse_of(r0, lazy_cells(HeaderRow::FirstNonEmptyRow, cs)),
+        sparse_of(rn, lazy_cells(HeaderRow::Row(n), cs)),
+    ensures
+        //# C08.lazy_header_row_empty_iff_nothing_at_or_below_n
+        rn.nonempty() <==> exists|i: int| 0 <= i < cs.len() && (#[trigger] cs[i]).v() != dflt::<T>() && cs[i].p().0 >= n,
+        //# C08.lazy_header_row_starts_at_n
+        rn.nonempty() ==> rn.lo().0 == n,
+        //# C08.lazy_header_row_same_values_from_n_on
+        forall|r: int, c: int| r >= n ==> #[trigger] rn.val_at(r, c) == r0.val_at(r, c),
+        //# C08.lazy_header_row_nothing_above_n
+        forall|r: int, c: int| #[trigger] rn.has(r, c) ==> r >= n,
+{
+    let k = keep(cs, n as int);
+    let d = keep(cs, 0);
+    let p = pad(k, n);
+    lemma_keep_props(cs, n as int);
+    lemma_keep_props(cs, 0);
+    // (a) empty iff nothing wanted
+    if k.len() > 0 {
+        assert(k.contains(k[0]));
+        let i = choose|i: int| 0 <= i < cs.len() && cs[i] == k[0];
+        assert(wanted(cs[i], n as int));
+    }
+    if exists|i: int| 0 <= i < cs.len() && (#[trigger] cs[i]).v() != dflt::<T>() && cs[i].p().0 >= n {
+        let i = choose|i: int| 0 <= i < cs.len() && (#[trigger] cs[i]).v() != dflt::<T>() && cs[i].p().0 >= n;
+        assert(cs.contains(cs[i]));
+        assert(k.contains(cs[i]));
+        assert(k.len() > 0);
+    }
+    assert(p.len() > 0 <==> k.len() > 0);
+    // every cell of p sits in a row >= n, and the first one in row n
+    assert forall|j: int| 0 <= j < k.len() implies (#[trigger] k[j]).pos.0 >= n by { assert(k.contains(k[j])); }
+    assert forall|j: int| 0 <= j < p.len() implies (#[trigger] p[j]).pos.0 >= n by {
+        if p.len() != k.len() { if j > 0 { assert(p[j] == k[j - 1]); } }
+    }
+    if rn.nonempty() {
+        assert(p[0].pos.0 == n);
+        let i = choose|i: int| 0 <= i < p.len() && (#[trigger] p[i]).pos.0 == rn.lo().0;
+        assert(p[i].pos.0 >= n);
+    }
+    // (c) same values from row n on
+    assert forall|r: int, c: int| r >= n implies #[trigger] rn.val_at(r, c) == r0.val_at(r, c) by {
+        lemma_sparse_val_at(rn, p, r, c);
+        lemma_sparse_val_at(r0, d, r, c);
+        lemma_keep_last_val(cs, n as int, r, c);
+        if p.len() != k.len() {
+            let pc = Cell { pos: (n, k[0].pos.1), val: dflt::<T>() };
+            lemma_last_val_prepend(pc, k, r, c);
+            if cell_at(pc, r, c) {
+                // no kept cell sits in row n: they are all below the first one, which is below n
+                lemma_last_val_some(k, r, c);
+                if last_val(k, r, c) is Some {
+                    let j = choose|j: int| 0 <= j < k.len() && cell_at(#[trigger] k[j], r, c);
+                    assert(k[0].pos.0 <= k[j].pos.0);
+                    assert(k[0].pos.0 >= n);
+                }
+            }
+        }
+    }
+}
+
+/// C08 default option / C01 / C03: the range is exactly the bounding rectangle of the non-empty cells (first row = first row holding
+/// a non-empty cell), every position shows the last non-empty cell written there, Empty elsewhere.
+pub proof fn default_row_lemma<T: CellType>(cs: Seq<Cell<T>>, r0: Range<T>)
+    requires
+        lawful::<T>(),
+        sparse_of(r0, lazy_cells(HeaderRow::FirstNonEmptyRow, cs)),
+    ensures
+        //# C08.default_empty_iff_no_nonempty_cell
+        r0.nonempty() <==> exists|i: int| 0 <= i < cs.len() && (#[trigger] cs[i]).v() != dflt::<T>(),
+        //# C01,C03,C08.default_bbox_encloses_nonempty_cells
+        forall|i: int| 0 <= i < cs.len() && (#[trigger] cs[i]).v() != dflt::<T>() ==>
+            r0.lo().0 <= cs[i].p().0 <= r0.hi().0 && r0.lo().1 <= cs[i].p().1 <= r0.hi().1,
+        //# C01,C03,C08.default_bbox_is_tight
+        r0.nonempty() ==> {
+            &&& exists|i: int| 0 <= i < cs.len() && (#[trigger] cs[i]).v() != dflt::<T>() && cs[i].p().0 == r0.lo().0
+            &&& exists|i: int| 0 <= i < cs.len() && (#[trigger] cs[i]).v() != dflt::<T>() && cs[i].p().0 == r0.hi().0
+            &&& exists|i: int| 0 <= i < cs.len() && (#[trigger] cs[i]).v() != dflt::<T>() && cs[i].p().1 == r0.lo().1
+            &&& exists|i: int| 0 <= i < cs.len() && (#[trigger] cs[i]).v() != dflt::<T>() && cs[i].p().1 == r0.hi().1
+        },
+        //# C01,C03.default_values
+        forall|r: int, c: int| #[trigger] r0.val_at(r, c) == or_dflt(last_val(keep(cs, 0), r, c)),
+{
+    let d = keep(cs, 0);
+    lemma_keep_props(cs, 0);
+    if d.len() > 0 {
+        assert(d.contains(d[0]));
+        let i = choose|i: int| 0 <= i < cs.len() && cs[i] == d[0];
+        assert(wanted(cs[i], 0));
+    }
+    if exists|i: int| 0 <= i < cs.len() && (#[trigger] cs[i]).v() != dflt::<T>() {
+        let i = choose|i: int| 0 <= i < cs.len() && (#[trigger] cs[i]).v() != dflt::<T>();
+        assert(cs.contains(cs[i]));
+        assert(d.contains(cs[i]));
+    }
+    assert forall|i: int| 0 <= i < cs.len() && (#[trigger] cs[i]).v() != dflt::<T>() implies
+        r0.lo().0 <= cs[i].p().0 <= r0.hi().0 && r0.lo().1 <= cs[i].p().1 <= r0.hi().1 by {
+        assert(cs.contains(cs[i]));
+        assert(d.contains(cs[i]));
+        let j = choose|j: int| 0 <= j < d.len() && d[j] == cs[i];
+        assert(r0.lo().0 <= d[j].pos.0);
+    }
+    if r0.nonempty() {
+        let a = choose|a: int| 0 <= a < d.len() && (#[trigger] d[a]).pos.0 == r0.lo().0;
+        assert(d.contains(d[a])); let ia = choose|i: int| 0 <= i < cs.len() && cs[i] == d[a]; assert(wanted(cs[ia], 0));
+        let b = choose|b: int| 0 <= b < d.len() && (#[trigger] d[b]).pos.0 == r0.hi().0;
+        assert(d.contains(d[b])); let ib = choose|i: int| 0 <= i < cs.len() && cs[i] == d[b]; assert(wanted(cs[ib], 0));
+        let e = choose|e: int| 0 <= e < d.len() && (#[trigger] d[e]).pos.1 == r0.lo().1;
+        assert(d.contains(d[e])); let ie = choose|i: int| 0 <= i < cs.len() && cs[i] == d[e]; assert(wanted(cs[ie], 0));
+        let f = choose|f: int| 0 <= f < d.len() && (#[trigger] d[f]).pos.1 == r0.hi().1;
+        assert(d.contains(d[f])); let i_f = choose|i: int| 0 <= i < cs.len() && cs[i] == d[f]; assert(wanted(cs[i_f], 0));
+    }
+    assert forall|r: int, c: int| #[trigger] r0.val_at(r, c) == or_dflt(last_val(d, r, c)) by {
+        lemma_sparse_val_at(r0, d, r, c);
+    }
+}
+
+//@@ props C01,C03
+/// The from_sparse contract determines the range extensionally: two reads of the same cells (whatever `<dimension>` / BrtWsDim said)
+/// have the same bounds and show the same value at every absolute position.
+pub proof fn lemma_range_determined_by_cells<T: CellType>(cs: Seq<Cell<T>>, r1: Range<T>, r2: Range<T>)
+    requires lawful::<T>(), sparse_of(r1, cs), sparse_of(r2, cs),
+    ensures
+        //# C01,C03.bbox_independent_of_dimension
+        r1.nonempty() == r2.nonempty() && (r1.nonempty() ==> r1.lo() == r2.lo() && r1.hi() == r2.hi()),
+        //# C01,C03.values_independent_of_dimension
+        forall|r: int, c: int| #[trigger] r1.val_at(r, c) == r2.val_at(r, c),
+{
+    if cs.len() > 0 {
+        let a1 = choose|i: int| 0 <= i < cs.len() && (#[trigger] cs[i]).pos.0 == r1.lo().0;
+        let a2 = choose|i: int| 0 <= i < cs.len() && (#[trigger] cs[i]).pos.0 == r2.lo().0;
+        assert(r1.lo().0 <= cs[a2].pos.0 && r2.lo().0 <= cs[a1].pos.0);
+        let b1 = choose|i: int| 0 <= i < cs.len() && (#[trigger] cs[i]).pos.0 == r1.hi().0;
+        let b2 = choose|i: int| 0 <= i < cs.len() && (#[trigger] cs[i]).pos.0 == r2.hi().0;
+        assert(r1.hi().0 >= cs[b2].pos.0 && r2.hi().0 >= cs[b1].pos.0);
+        let c1 = choose|i: int| 0 <= i < cs.len() && (#[trigger] cs[i]).pos.1 == r1.lo().1;
+        let c2 = choose|i: int| 0 <= i < cs.len() && (#[trigger] cs[i]).pos.1 == r2.lo().1;
+        assert(r1.lo().1 <= cs[c2].pos.1 && r2.lo().1 <= cs[c1].pos.1);
+        let d1 = choose|i: int| 0 <= i < cs.len() && (#[trigger] cs[i]).pos.1 == r1.hi().1;
+        let d2 = choose|i: int| 0 <= i < cs.len() && (#[trigger] cs[i]).pos.1 == r2.hi().1;
+        assert(r1.hi().1 >= cs[d2].pos.1 && r2.hi().1 >= cs[d1].pos.1);
+    }
+    assert forall|r: int, c: int| #[trigger] r1.val_at(r, c) == r2.val_at(r, c) by {
+        lemma_sparse_val_at(r1, cs, r, c);
+        lemma_sparse_val_at(r2, cs, r, c);
+    }
+}
+//@@ props C08,C07,C01,C03,C06
+
+
+/// the cells handed to from_sparse satisfy its documented precondition whenever the stream is row-sorted
+proof fn lemma_lazy_cells_sorted<T: CellType>(hr: HeaderRow, cs: Seq<Cell<T>>)
+    requires rows_mono(cs),
+    ensures rows_mono(lazy_cells(hr, cs)), rows_sorted(lazy_cells(hr, cs)),
+{
+    match hr {
+        HeaderRow::FirstNonEmptyRow => { lemma_keep_props(cs, 0); }
+        HeaderRow::Row(n) => {
+            lemma_keep_props(cs, n as int);
+            let k = keep(cs, n as int);
+            let p = pad(k, n);
+            assert forall|j: int| 0 <= j < k.len() implies (#[trigger] k[j]).pos.0 >= n by { assert(k.contains(k[j])); }
+            if p.len() != k.len() {
+                assert forall|i: int, j: int| 0 <= i <= j < p.len() implies (#[trigger] p[i]).pos.0 <= (#[trigger] p[j]).pos.0 by {
+                    if i > 0 { assert(p[i] == k[i - 1] && p[j] == k[j - 1]); }
+                    else if j > 0 { assert(p[j] == k[j - 1]); }
+                }
+            }
+        }
+    }
+}
+
+// =====================================================================================================================
+// Stand-ins for the cell readers and the reader traits
+// =====================================================================================================================
+/// Where the cells of a sheet come from, as the range builder sees it: either the reader cannot be opened, or it yields a finite
+/// sequence of cells followed by a clean end (`end` None: `</sheetData>` / BrtEndSheetData) or by an error; `dims` is what the
+/// `<dimension>` element / BrtWsDim record claims.
+pub enum LazySrc<C, E> {
+    OpenErr(E),
+    Stream { cells: Seq<C>, end: Option<E>, dims: Dimensions },
+}
+
+// TRUSTED: ghost cell stream stands for the XML reader of one sheet part. `remaining()` is the finite sequence of cells the reader
+// will still deliver (a sheet part is a finite file and every next_cell call consumes input: this is what gives the loops a measure),
+// `terminal()` how the stream ends, `dims()` the parsed `<dimension ref>`. next_cell itself (position / value decoding of one `<c>`)
+// is under contract in the units a1 / xlsxxml, not here.
+#[verifier::external_body]
+pub struct XlsxCellReader<'a> { _p: PhantomData<&'a u8> }
+impl<'a> XlsxCellReader<'a> {
+    pub uninterp spec fn remaining(&self) -> Seq<Cell<DataRef<'a>>>;
+    pub uninterp spec fn terminal(&self) -> Option<XlsxError>;
+    pub uninterp spec fn dims(&self) -> Dimensions;
+    // TRUSTED: signature of src/xlsx/cells_reader.rs XlsxCellReader::dimensions (returns the stored field)
+    #[verifier::external_body]
+    pub fn dimensions(&self) -> (d: Dimensions)
+        ensures d == self.dims(),
+    { unimplemented!() }
+    // TRUSTED: signature of src/xlsx/cells_reader.rs XlsxCellReader::next_cell; pops the head of the ghost stream
+    #[verifier::external_body]
+    pub fn next_cell(&mut self) -> (r: Result<Option<Cell<DataRef<'a>>>, XlsxError>)
+        ensures
+            final(self).terminal() == old(self).terminal() && final(self).dims() == old(self).dims(),
+            match r {
+                Ok(Some(c)) => old(self).remaining().len() > 0 && c == old(self).remaining()[0]
+                    && final(self).remaining() == old(self).remaining().skip(1),
+                Ok(None) => old(self).remaining().len() == 0 && old(self).terminal() is None && final(self).remaining() == old(self).remaining(),
+                Err(e) => old(self).remaining().len() == 0 && old(self).terminal() == Some(e) && final(self).remaining() == old(self).remaining(),
+            },
+    { unimplemented!() }
+}
+
+impl<RS> Xlsx<RS> {
+    /// the option
+    pub closed spec fn hr(&self) -> HeaderRow { self.options.header_row }
+    /// everything but the option (frame of with_header_row)
+    pub closed spec fn rest(&self) -> (ZipArchive<RS>, Vec<String>, Vec<(String, String)>, Tables, Vec<CellFormat>, bool, Metadata, Option<Vec<(String, String, Dimensions)>>) {
+        (self.zip, self.strings, self.sheets, self.tables, self.formats, self.is_1904, self.metadata, self.merged_regions)
+    }
+    /// what `worksheet_cells_reader(name)` makes of the workbook (zip lookup + XML prologue of the sheet part): not modelled further
+    pub uninterp spec fn sheet_src<'a>(&self, name: Seq<char>) -> LazySrc<Cell<DataRef<'a>>, XlsxError>;
+    /// `name` is one of the sheets listed in workbook.xml
+    pub closed spec fn knows(&self, name: Seq<char>) -> bool { exists|i: int| 0 <= i < self.sheets@.len() && (#[trigger] self.sheets@[i]).0@ == name }
+}
+
+impl<RS: Read + Seek> Xlsx<RS> {
+    // TRUSTED: stand-in for src/xlsx/mod.rs Xlsx::worksheet_cells_reader (sheet path lookup in `self.sheets`, zip entry, XML prologue up
+    // to `<sheetData>`): the reader it returns is the ghost stream `sheet_src(name)`; an unknown name is WorksheetNotFound (first
+    // statement of the real function: `.find(|&(n, _)| n == name).ok_or_else(|| XlsxError::WorksheetNotFound(name.into()))?`).
+    #[verifier::external_body]
+    pub fn worksheet_cells_reader<'a>(&'a mut self, name: &str) -> (r: Result<XlsxCellReader<'a>, XlsxError>)
+        ensures
+            match r {
+                Ok(rd) => old(self).sheet_src(name@) == (LazySrc::Stream { cells: rd.remaining(), end: rd.terminal(), dims: rd.dims() }),
+                Err(e) => old(self).sheet_src(name@) == LazySrc::<Cell<DataRef<'a>>, XlsxError>::OpenErr(e),
+            },
+            !old(self).knows(name@) ==> r is Err && r->Err_0 is WorksheetNotFound,
+    { unimplemented!() }
+}
+
+// Stand-ins for the traits `Reader` / `ReaderRef` of src/lib.rs, restricted to the methods under contract here (signatures copied; the
+// other methods mention foreign types -- Cow, VbaProject, Metadata accessors -- and are not used by the verified code).
+pub trait Reader<RS>: Sized
+where
+    RS: Read + Seek,
+{
+    type Error;
+    fn with_header_row(&mut self, header_row: HeaderRow) -> &mut Self;
+    fn worksheet_range(&mut self, name: &str) -> Result<Range<Data>, Self::Error>;
+}
+pub trait ReaderRef<RS>: Reader<RS>
+where
+    RS: Read + Seek,
+{
+    fn worksheet_range_ref<'a>(&'a mut self, name: &str)
+        -> Result<Range<DataRef<'a>>, Self::Error>;
+}
+
+// TRUSTED: documented behaviour of Option::map_or ("Returns the provided default result (if none), or applies a function to the contained value (if any)")
+pub assume_specification<T, U, F: FnOnce(T) -> U>[ Option::<T>::map_or ](o: Option<T>, default: U, f: F) -> (r: U)
+    requires o is Some ==> f.requires((o->Some_0,)),
+    ensures o is None ==> r == default, o is Some ==> f.ensures((o->Some_0,), r);
+
+proof fn lemma_u32_product(a: int, b: int)
+    requires 0 <= a <= u32::MAX, 0 <= b <= u32::MAX,
+    ensures 0 <= a * b <= u64::MAX,
+{
+    assert(0 <= a * b <= 0xffff_ffff * 0xffff_ffff) by (nonlinear_arith) requires 0 <= a <= 0xffff_ffff, 0 <= b <= 0xffff_ffff;
+}
+
+//@@ impl src/lib.rs Dimensions
+//@@ fn src/lib.rs Dimensions::len props=C06 entry ret=r
+//@@ sig
+    ensures
+        //# C06.dimensions_len
+        self.start.0 <= self.end.0 && self.start.1 <= self.end.1 ==> r == (self.end.0 - self.start.0 + 1) * (self.end.1 - self.start.1 + 1),
+//@@ body
+        proof {
+            if self.start.0 <= self.end.0 && self.start.1 <= self.end.1 && self.end.0 - self.start.0 < u32::MAX && self.end.1 - self.start.1 < u32::MAX {
+                lemma_u32_product(self.end.0 - self.start.0 + 1, self.end.1 - self.start.1 + 1);
+            }
+        }
+//@@ end
+//@@ endimpl
+
+//@@ impl src/xlsx/mod.rs "Reader<RS> for Xlsx<RS>"
+//@@ item src/xlsx/mod.rs impl_type "Reader<RS> for Xlsx<RS>::type Error"
+//@@ fn src/xlsx/mod.rs "Reader<RS> for Xlsx<RS>::with_header_row" props=C07,C08 ret=r
+//@@ sig
+    ensures
+        //# C07,C08.with_header_row_sets_option
+        r.hr() == header_row,
+        //# C07,C08.with_header_row_frame
+        r.rest() == old(self).rest(),
+        //# C07,C08.with_header_row_returns_self
+        *final(r) == *final(self),
+//@@ end
+    // stand-in so that the reduced trait is implemented; the real worksheet_range is under contract below (inherent-method rule)
+    #[verifier::external_body]
+    fn worksheet_range(&mut self, name: &str) -> Result<Range<Data>, XlsxError> { unimplemented!() }
+//@@ endimpl
+
+//@@ impl src/xlsx/mod.rs "ReaderRef<RS> for Xlsx<RS>"
+//@@ fn src/xlsx/mod.rs "ReaderRef<RS> for Xlsx<RS>::worksheet_range_ref" props=C08,C01,C07 entry ret=r
+//@@ sig
+    ensures
+        //# C07.lazy_unknown_sheet_is_error
+        !old(self).knows(name@) ==> r is Err,
+        //# C07.lazy_open_error_is_returned
+        ({ let src = old(self).sheet_src(name@); src is OpenErr && !(src->OpenErr_0 is NotAWorksheet) ==> r is Err && r->Err_0 == src->OpenErr_0 }),
+        //# C07.lazy_not_a_worksheet_is_empty_range
+        ({ let src = old(self).sheet_src(name@); src is OpenErr && src->OpenErr_0 is NotAWorksheet ==> r is Ok && r->Ok_0.wf() && !r->Ok_0.nonempty() }),
+        //# C06.lazy_read_error_is_returned
+        ({ let src = old(self).sheet_src(name@); src is Stream && src->end is Some ==> r is Err && r->Err_0 == src->end->Some_0 }),
+        //# C08,C01.lazy_filter
+        ({ let src = old(self).sheet_src(name@); src is Stream && src->end is None ==>
+            r is Ok && (rows_mono(src->cells) ==> sparse_of(r->Ok_0, lazy_cells(old(self).hr(), src->cells))) }),
+//@@ before /let len = /
+        let ghost stream = cell_reader.remaining();
+        proof { lemma_lawful_cells(); }
+//@@ before /cells\.reserve\(/
+            proof {
+                //# C06.reserve_capped
+                assert(len < 100_000);
+            }
+//@@ before /match header_row \{/
+        proof { assert(stream.take(0) =~= Seq::<Cell<DataRef<'a>>>::empty()); }
+//@@ loop 0
+                    invariant
+                        cell_reader.remaining().len() <= stream.len(),
+                        cell_reader.remaining() == stream.skip(stream.len() - cell_reader.remaining().len()),
+                        cells@ == keep(stream.take(stream.len() - cell_reader.remaining().len()), 0),
+                        old(self).sheet_src(name@) == (LazySrc::Stream { cells: stream, end: cell_reader.terminal(), dims: cell_reader.dims() }),
+                        dflt::<DataRef<'a>>() == DataRef::<'a>::Empty,
+                    ensures
+                        cell_reader.remaining().len() == 0 && cell_reader.terminal() is None,
+                    decreases cell_reader.remaining().len(),
+//@@ before /match cell_reader/#0of2
+                    proof {
+                        let k = stream.len() - cell_reader.remaining().len();
+                        if k < stream.len() {
+                            lemma_take_step(stream, k, 0);
+                            assert(cell_reader.remaining()[0] == stream[k]);
+                            assert(cell_reader.remaining().skip(1) =~= stream.skip(k + 1));
+                        }
+                    }
+//@@ loop 1
+                    invariant
+                        cell_reader.remaining().len() <= stream.len(),
+                        cell_reader.remaining() == stream.skip(stream.len() - cell_reader.remaining().len()),
+                        cells@ == keep(stream.take(stream.len() - cell_reader.remaining().len()), header_row_idx as int),
+                        old(self).sheet_src(name@) == (LazySrc::Stream { cells: stream, end: cell_reader.terminal(), dims: cell_reader.dims() }),
+                        dflt::<DataRef<'a>>() == DataRef::<'a>::Empty,
+                    ensures
+                        cell_reader.remaining().len() == 0 && cell_reader.terminal() is None,
+                    decreases cell_reader.remaining().len(),
+//@@ before /match cell_reader/#1of2
+                    proof {
+                        let k = stream.len() - cell_reader.remaining().len();
+                        if k < stream.len() {
+                            lemma_take_step(stream, k, header_row_idx as int);
+                            assert(cell_reader.remaining()[0] == stream[k]);
+                            assert(cell_reader.remaining().skip(1) =~= stream.skip(k + 1));
+                        }
+                    }
+//@@ closure 0
+    -> (res: bool) ensures res == (c.pos.0 != header_row_idx)
+//@@ before /if cells\.first\(\)/
+                let ghost kept = cells@;
+                proof { assert(stream.take(stream.len() as int) =~= stream); }
+//@@ before /Ok\(Range::from_sparse/
+        proof {
+            assert(stream.take(stream.len() as int) =~= stream);
+            match header_row {
+                HeaderRow::FirstNonEmptyRow => {}
+                HeaderRow::Row(n) => {
+                    let ks = keep(stream, n as int);
+                    if ks.len() > 0 && ks[0].pos.0 != n {
+                        assert(cells@ =~= seq![Cell { pos: (n, ks[0].pos.1), val: DataRef::<'a>::Empty }] + ks);
+                    }
+                }
+            }
+            assert(cells@ == lazy_cells(header_row, stream));
+            if rows_mono(stream) { lemma_lazy_cells_sorted(header_row, stream); }
+        }
+//@@ end
+//@@ endimpl
 
 } // verus!
 fn main() {}
